@@ -130,6 +130,13 @@ def check(case, ctx: Ctx):
             if later:
                 raise Violation("executes-again-after-successful-final-execution",
                                 "launch %s after successful post-notification launch %d; %s" % (later, first, desc))
+        elif case["kill_after"] is None:
+            # no successful post-notification execution: it may only give up once the retries are used up
+            attempts = [t for t, last in sim.kernel_log if t >= Tn and not last]
+            if len(attempts) < retries + 1:
+                raise Violation("gave-up-before-retries-were-used-up",
+                                "%d attempt(s) after the notification, repeatRetries=%d; %s" % (
+                                    len(attempts), retries, desc))
     labels = []
     in_task = Tn is not None and any(s < Tn < ends.get(n, (s, None))[0] for n, s in launches if n in ends)
     near_output = Tn is not None and L is not None and 0 <= Tn - L <= 5.0
